@@ -393,7 +393,7 @@ func (s *clientSocket) sendConnectPacket(authData any) {
 func (s *clientSocket) onPacket(header *parser.PacketHeader, eventName string, decode parser.Decode, epoch uint64) {
 	switch header.Type {
 	case parser.PacketTypeConnect:
-		s.onConnect(header, decode)
+		s.onConnect(header, decode, epoch)
 
 	case parser.PacketTypeEvent, parser.PacketTypeBinaryEvent:
 		var (
@@ -428,7 +428,7 @@ func (s *clientSocket) onPacket(header *parser.PacketHeader, eventName string, d
 	}
 }
 
-func (s *clientSocket) onConnect(_ *parser.PacketHeader, decode parser.Decode) {
+func (s *clientSocket) onConnect(_ *parser.PacketHeader, decode parser.Decode, epoch uint64) {
 	connectError := func(err error) {
 		err = fmt.Errorf("sio: invalid CONNECT packet: %w: it seems you are trying to reach a Socket.IO server in v2.x with a v3.x client, but they are not compatible (more information here: https://socket.io/docs/v3/migrating-from-2-x-to-3-0/)", err)
 		s.connectErrorHandlers.forEach(func(handler *ClientSocketConnectErrorFunc) { (*handler)(err) }, true)
@@ -468,7 +468,8 @@ func (s *clientSocket) onConnect(_ *parser.PacketHeader, decode parser.Decode) {
 	// closed in the meantime (the disconnection is already reported then).
 	// A CONNECT packet of a closed connection must not connect the socket.
 	s.stateMu.Lock()
-	if !s.manager.connected() {
+	if !s.manager.connected() || s.manager.connEpoch.Load() != epoch {
+		// (The manager might even be connected again: with the next connection.)
 		s.stateMu.Unlock()
 		return
 	}
@@ -476,7 +477,7 @@ func (s *clientSocket) onConnect(_ *parser.PacketHeader, decode parser.Decode) {
 		// `Disconnect` was called while the reply was pending (see there).
 		// The server has a socket for this namespace now. Tell it to drop it.
 		s.stateMu.Unlock()
-		s.sendControlPacket(parser.PacketTypeDisconnect, nil)
+		s.sendDisconnectPacketOf(epoch)
 		return
 	}
 	s.setID(SocketID(v.SID))
@@ -943,6 +944,23 @@ func (s *clientSocket) sendControlPacket(typ parser.PacketType, v any) {
 		return
 	}
 	s.sendBuffers(false, true, nil, buffers...)
+}
+
+// Sends a DISCONNECT packet with the connection of the given epoch only (see `Manager.packetOf`).
+func (s *clientSocket) sendDisconnectPacketOf(epoch uint64) {
+	header := parser.PacketHeader{
+		Type:      parser.PacketTypeDisconnect,
+		Namespace: s.namespace,
+	}
+	buffers, err := s.parser.Encode(&header, nil)
+	if err != nil || len(buffers) != 1 {
+		return
+	}
+	packet, err := eioparser.NewPacket(eioparser.PacketTypeMessage, false, buffers[0])
+	if err != nil {
+		return
+	}
+	s.manager.packetOf(epoch, packet)
 }
 
 func (s *clientSocket) sendAckPacket(id uint64, values []reflect.Value) {
